@@ -409,6 +409,11 @@ Proof.
   rewrite Hs, String.eqb_refl in H. cbn in H. apply bc_eqb_eq. exact H.
 Qed.
 
+Lemma subject_examples :
+  subject_of (mk_bc None LCreated) = "state_changed.None.created" /\
+  subject_of (mk_bc (Some LRunning) LKilled) = "state_changed.running.killed".
+Proof. split; reflexivity. Qed.
+
 (* ------------------------------------------------------------------ tolerated failures of the broadcast *)
 Lemma send_ok : forall b sent, send_announcement b None sent = (Ok tt, sent ++ [b]).
 Proof. reflexivity. Qed.
